@@ -26,7 +26,7 @@ EXPLANATION = (
     'thread 0 only); plus a frozen set of static-storage variables written after start-up. Every field of the listed classes must '
     'have a row (new fields fail until classified).'
     ' The options hand-over (waitOptionsSet returning) is decided by the completion-flag typestate: optionsSetFinished is set only under the mutex with the pending queue and every swapped-out batch known empty.'
-    ' Added later; (6) unlocked walks of Communicator::children in poll are followed by a lock acquisition; (7) option reads on the go paths follow waitOptionsSet; (8) the start-up seeding of the lazily filled maxSubDTM map covers every pawn split up to colour mirroring, so search threads only look it up. (9) every Notifier::wait outside a re-checking loop waits without a time limit (the hand-over edges the table relies on). (10) ~WorkerThread destroys its sub-workers only after its own thread, which polls their communicators unlocked, has been joined - found and fixed defect D20. (11) a ThreadPool task touches an output stream of the enclosing function only to choose its own log under the single-worker test, or under a mutex.')
+    ' Added later; (6) unlocked walks of Communicator::children in poll are followed by a lock acquisition; (7) option reads on the go paths follow waitOptionsSet; (8) the start-up seeding of the lazily filled maxSubDTM map covers every pawn split up to colour mirroring, so search threads only look it up. (9) every Notifier::wait outside a re-checking loop waits without a time limit (the hand-over edges the table relies on). (10) ~WorkerThread destroys its sub-workers only after its own thread, which polls their communicators unlocked, has been joined - found and fixed defect D20. (11) a ThreadPool task touches an output stream of the enclosing function only to choose its own log under the single-worker test, or under a mutex. (12) = C10.5 the stop round after every search that ran (the premise of the engine thread\'s confinement rows).')
 UNDECIDED = ('absence of races in the C++ memory-model sense for the whole engine (needs dynamic happens-before tracking); rows marked '
              'HB-protocol rely on message-protocol ordering that is listed, not proved; maxSubDTM/maxDTM lazy maps are not judged '
              '(6/7-men tablebase files needed to reach the insertion).')
@@ -183,6 +183,10 @@ def run(fb, rep, tier):
     c9_hand_over_waits_are_unbounded(fb, rep)
     c10_worker_teardown_order(fb, rep)
     c11_pool_tasks_log_privately(fb, rep)
+    # .12 the confinement rows of the engine thread ("helpers are idle when the protocol thread touches X") rest on the stop
+    # round after every search that ran: the loop / handshake obligations of C10.5 are that premise (shared)
+    from . import C10 as _C10
+    _C10.c5_loops(fb, rep, 'C09.12')
     # .7 option values (plain bool / int members of the parameter objects) are written by the engine thread and read by the
     # protocol thread when it handles `go`: the only happens-before edge is waitOptionsSet() inside stopThread(), which must
     # therefore precede every option-reading call on the go paths (shared with C06.4)
